@@ -258,6 +258,25 @@ def wl_expanding(ctx, rng, case):
                 t.add(kk)
                 s2.add(kk)
             ctx.check(bytes(t) == bytes(s2), f"{cls.__name__}: the reload (via {lname}) diverges from the original when the history continues")
+        # ---- the SAME object goes on and is exported again and again (whatever an export remembers must follow pushes onto a full
+        # queue, pops, growth): every later export is loaded and compared like the first
+        for cycle in range(rng.randint(1, 3)):
+            for _ in range(rng.randint(1, 6)):
+                r = rng.random()
+                if r < 0.55:
+                    s.add(rng.choice(keys), force=rng.random() < 0.15)
+                elif r < 0.85:
+                    s.push()
+                    if rotating and s.current_queue_size == Q:
+                        ctx.count("pushes_onto_a_full_queue_between_exports")
+                elif rotating and s.current_queue_size > 1:
+                    s.pop()
+            chan = rng.choice(["bytes", "path", "fileobj"])
+            again = bl.export_bytes_via(s, chan, sc)
+            t = cls.frombytes(again, **extra, **bl.kw_hash(hf))
+            compare(ctx, s, t, acc, MEMBER_Q, keys + ["never-added"], f"{cls.__name__}, export #{cycle + 2} of the same object (via {chan})")
+            ctx.check(bytes(t) == again, f"{cls.__name__}: re-export after loading export #{cycle + 2} differs")
+            ctx.count("repeated_exports_of_one_object")
         case.nontrivial = True
     finally:
         sc.cleanup()
